@@ -18,7 +18,8 @@ ENCS = ["absent", "i1", "i0", "i2", "im1", "s1", "s0", "se", "sx", "list", "elis
 INTENDED = {"absent": False, "i0": False, "i1": True}
 KIND = {"out": "tracker", "man": "manual", "in1": "incoming", "in2": "incoming", "pexa": "pex", "pexd": "pex", "dhtp": "dht"}
 DHT_SETTLE = 1700
-INFLIGHT_MS = 300   # observations logged less than this after the refusal of the metadata count as in flight before it
+INFLIGHT_MS = 300       # connections / ut_pex messages logged less than this after the refusal of the metadata count as in flight before it
+INFLIGHT_DHT_MS = 500   # same for KRPC queries (the defect it guards shows up anywhere within 1 s after the refusal)
 
 
 def S(do, peer="", k=""):
@@ -222,7 +223,8 @@ def reorder_inflight(a):
             moved = []
             rest = []
             for x in out[i + 1:]:
-                if x["ev"] in ("dial", "pexrx", "dhtq", "dhtvalues") and x["t"] < e["t"] + INFLIGHT_MS:
+                if (x["ev"] in ("dial", "pexrx") and x["t"] < e["t"] + INFLIGHT_MS) or \
+                        (x["ev"] in ("dhtq", "dhtvalues") and x["t"] < e["t"] + INFLIGHT_DHT_MS):
                     moved.append(x)
                 else:
                     rest.append(x)
